@@ -150,6 +150,10 @@ structure Pair where
   (and the parser on the messages that path produces); `variantOf` is the id of the pair it is a path of -/
   variantOf : String := ""
   setCond : Cond := .tt
+  /-- `(o, n, U)`: field `o` is an `n`-bit field whose all-ones pattern ("not available") the parser hands back as
+  the value `U` (the enumeration's own NA, e.g. `N2khs_Undef = 0xff` for the 2-bit humidity source of PGN 130311):
+  the source form `if (x == 2^n-1) x = U;` after the field has been extracted -/
+  naRemap : List (Nat × Nat × Nat) := []
   deriving Repr
 
 def Pair.W (P : Pair) (o : Nat) : Nat := P.widths.getD o 0
@@ -170,11 +174,36 @@ def Pair.intCode (P : Pair) (o v : Nat) : Nat :=
   | some r => if r.resExp = 0 ∧ r.resNum ≠ 0 then v / r.resNum else v
   | none => v
 
-/-- per-field obligation: the parser reads field `o` from exactly the bits the setter wrote it to, and both
-sides use the same scaled side record (or both treat the field as an integer) -/
+def lookupRemap (l : List (Nat × Nat × Nat)) (o : Nat) : Option (Nat × Nat) :=
+  match l with
+  | [] => none
+  | (k, n, u) :: t => if k = o then some (n, u) else lookupRemap t o
+
+/-- the value the parser returns for field `o` when the bits it reads hold `raw` -/
+def Pair.value (P : Pair) (o raw : Nat) : Nat :=
+  match lookupRemap P.naRemap o with
+  | some (n, u) => if raw = 2 ^ n - 1 then u else raw
+  | none => raw
+
+/-- the values of field `o` the round trip is claimed for: everything below `2^W`; for an `n`-bit field with an NA
+remap everything the field can hold below its all-ones pattern, and the NA value itself -/
+def Pair.inDomain (P : Pair) (o v : Nat) : Prop :=
+  match lookupRemap P.naRemap o with
+  | some (n, u) => v < 2 ^ n - 1 ∨ v = u
+  | none => v < 2 ^ P.W o
+
+/-- side conditions of an NA remap: the field is exactly `n > 0` bits on both sides and the NA value `U` is written by
+the setter as the all-ones pattern (its low `n` bits are ones) -/
+def remapOK (P : Pair) (o : Nat) : Bool :=
+  match lookupRemap P.naRemap o with
+  | none => true
+  | some (n, u) => decide (0 < n) && P.W o == n && (P.parser.getD o []).length == n && u % 2 ^ n == 2 ^ n - 1
+
+/-- per-field obligation: the parser reads field `o` from exactly the bits the setter wrote it to, both sides use the
+same scaled side record (or both treat the field as an integer), and an NA remap is consistent with the setter -/
 def fieldOK (P : Pair) (o : Nat) : Bool :=
   outOK (srcAt P.setter) o (P.W o) (P.parser.getD o []) &&
-  decide (lookupRec P.setScaled o = lookupRec P.parseScaled o)
+  decide (lookupRec P.setScaled o = lookupRec P.parseScaled o) && remapOK P o
 
 /-- constants the parser insists on are constants the setter writes -/
 def payloadGuardOK (P : Pair) : Bool :=
@@ -207,7 +236,7 @@ def lenAccepted (P : Pair) (payload : List Bool) : Bool :=
 
 def parseMsg (P : Pair) (pgn : Nat) (payload : List Bool) : Option (List Nat) :=
   if pgnAccepted P pgn && lenAccepted P payload && payloadGuardHolds P payload
-  then some (decode P.parser payload) else none
+  then some ((List.range P.parser.length).map fun o => P.value o ((decode P.parser payload).getD o 0)) else none
 
 /-- the setter: PGN and payload -/
 def setMsg (P : Pair) (params : Nat → Nat) : Nat × List Bool := (P.pgn, encode P.setterBits params)
